@@ -61,8 +61,9 @@ def run(pid, tier, profile="mixed", own=None, nops=None, streams_per_cfg=None, e
     nops = nops or (500 if tier == "quick" else 4000)
     known = [k for k in C.load_known().get("findings", []) if k.get("property") in own]
     with C.Lock():
-        lean_ok, names = C.lean_phase(res, pid, gen_fn=C.both(C.regen_arith, C.regen_limits) if pid == "C10" else C.regen_arith,
-                                      extra_props=list(extra_props) + (["C10Limits"] if pid == "C10" else []))
+        gen = {"C10": C.both(C.regen_arith, C.regen_limits), "C12": C.both(C.regen_arith, C.regen_wire)}.get(pid, C.regen_arith)
+        lean_ok, names = C.lean_phase(res, pid, gen_fn=gen,
+                                      extra_props=list(extra_props) + {"C10": ["C10Limits"], "C12": ["C12Wire"]}.get(pid, []))
     for ph in phases:
         ph(res, tier)
     cfgs = configs(tier, rng, pid)
